@@ -40,10 +40,10 @@ func NewGitNode(
 		return nil, err
 	}
 
-	basePath, path := func() (string, string) {
-		x := strings.Split(u.Path, "//")
-		return x[0], x[1]
-	}()
+	basePath, path, ok := strings.Cut(u.Path, "//")
+	if !ok {
+		return nil, &errors.TaskfileInvalidError{URI: entrypoint, Err: errors.New("git URL has no '//' separating the repository from the path of the Taskfile")}
+	}
 	ref := u.Query().Get("ref")
 
 	rawUrl := u.String()
